@@ -17,31 +17,43 @@ import warnings
 from .common import Ctx, Driver
 
 MANIFEST = dict(
-    text=("Lean theorems, for all trees (own inductive tree type with opaque tag / string pieces, element identities, hidden tags as "
-          "empty pieces), all indent units and all start levels: the code-mirror of Tag.decode's loop over the event stream "
-          "(indent_level bookkeeping, string-literal mode, strip, _indent_string, empty pieces dropped) equals the recursive "
-          "specification (pretty_refines, pretty_refines_contents, plain_refines; net-effect induction: level and literal tag are "
-          "restored after every balanced block); the specification lays every tag piece and every non-blank stripped string on "
-          "a line of its own at unit^(level+depth) and every outermost whitespace-preserving element verbatim (line_structure, "
-          "preserve_verbatim, preserve_verbatim_line); non-empty output ends with a newline (ends_with_newline); with a "
-          "whitespace-only unit, pretty and plain output have the same non-whitespace characters in the same order (nonws_equal) "
-          "and the same piece sequence up to strip of string pieces and inserted indentation/newlines (pretty_same_events); "
-          "Formatter.indent normalisation yields whitespace for None/int/other arguments and every registered formatter's unit is one "
-          "space (indent_*; generated tables); pre/textarea are the HTML whitespace-preserving names (html_preserve_tags). "
-          "Tie: differential runs of the real prettify/decode/decode_contents on every element of html.parser-parsed, API-edited "
-          "and XML-flavoured trees x formatters x indent settings x start levels against the Lean mirror and spec, and the direct "
-          "Python oracle of the statement incl. html.parser re-parse of both outputs."),
+    text=("Lean theorems, for all trees, all indent units, all start levels and all eventual encodings. (1) Code-mirrors proved equal to "
+          "recursive specifications: Tag.decode's loop over the event stream (indent_level bookkeeping, string-literal mode by identity, "
+          "strip of string pieces, _indent_string, empty pieces dropped) = prettyNode/prettyL (pretty_refines, pretty_refines_contents, "
+          "plain_refines, decode_refines, prettify_refines, state_restored); _event_stream's tag stack over the pre-order with parent "
+          "pointers = the balanced event list (event_stream_refines, decode_on_walk); the entry points Tag.decode / decode_contents / "
+          "encode / encode_contents / prettify (str and bytes flavour) and BeautifulSoup.decode (XML declaration, deprecated bool level) "
+          "on pieces assembled like _format_tag / output_ready (recv_decode_refines, xml_declaration, xml_declaration_python_specific, "
+          "prettify_flavours, prettify_bytes_of_str, void_receiver, tag_piece_shape). (2) Laws of the specification = the clauses of the "
+          "property: every tag piece and non-blank stripped string on a line of its own at unit^(level+depth), outermost "
+          "whitespace-preserving elements verbatim on their own line (line_structure, line_structure_contents, line_structure_general "
+          "without the visibility hypothesis, recv_line_structure, preserve_verbatim, preserve_verbatim_line, preserve_verbatim_contents, "
+          "blank_iff, special_strings_have_lines over the whole generated PREFIX/SUFFIX table); newline at the end (ends_with_newline*, "
+          "recv_line_structure); with a whitespace unit the same non-whitespace characters as the plain output for the same encoding "
+          "(nonws_equal*, recv_nonws_equal, prettify_flavours), the same piece sequence (pretty_same_events) and the same token sequence "
+          "once character data is merged and its whitespace disregarded (pretty_same_tokens, specials_ok_table). (3) Formatter.indent "
+          "normalisation and tables generated from the live code, whole-table obligations (indent_*, builtin_units, html_preserve_tags, "
+          "xml_preserves_nothing, should_pretty_print_iff, whitespace_table). Tie: differential runs of the real prettify / decode / "
+          "decode_contents / encode / encode_contents on every element of html.parser-parsed, API-edited and XML-flavoured trees x "
+          "formatters x indent settings x levels x encodings against the Lean mirrors and specs (ops dec, spec, raw impl/spec, ev, evs, "
+          "tp/tq, indent, strip, spp), and the direct Python oracle of the statement incl. html.parser re-parse and tokenisation of both outputs."),
     design="7/C14",
     note=("Whitespace is Python's (str.isspace): under formatters that do not turn them into entities (minimal, None) pretty-printing "
           "also strips leading/trailing NBSP, U+3000 etc. from text nodes -- 'only whitespace' by this definition, though visible in a "
-          "browser (observation, not claimed as a defect). Tag and string pieces (_format_tag, output_ready) are inputs of the model (C05/C06/C15 own them). The 'only whitespace' "
-          "claims carry the hypothesis that the indent unit is whitespace; Formatter(indent='--') is run for model correspondence "
-          "and line structure only. A hidden whitespace-preserving element (hidden=True set by hand on a pre) has no opening/closing "
-          "piece and therefore no line of its own: modelled and compared, excluded from the line-structure/newline oracle. "
-          "HTMLFormatter(indent=)/XMLFormatter(indent=) ignore the argument (C15's finding): for those two classes the unit is read "
-          "from the formatter object. An XML-flavoured BeautifulSoup object prefixes the XML declaration (BeautifulSoup.decode); the "
-          "harness checks and removes that one line before comparing."),
-    technique="Lean 4 refinement proof (event-stream fold = recursive spec, laws of the spec, generated tables) + differential correspondence + direct Python oracle incl. re-parse",
+          "browser (observation, not claimed as a defect). Opaque inputs of the model: the attribute string of a tag per eventual "
+          "encoding and the substituted body of a string (C05/C06/C15 own them); the codec step of the bytes flavour "
+          "(str.encode(enc, 'xmlcharrefreplace')) is applied by the harness to the model's text. The tokenizer is not modelled: the "
+          "re-parse clause is proved at the token level (pretty_same_tokens) and the cuts are compared with html.parser's on the real "
+          "outputs; the tree-level comparison is the Python oracle. The 'only whitespace' claims carry the hypothesis that the "
+          "indent unit is whitespace; Formatter(indent='--') is run for model correspondence and line structure only; in the bytes "
+          "flavour a whitespace character the target encoding lacks becomes a character reference (statement is about the text "
+          "handed to the codec). A hidden whitespace-preserving element (hidden=True set by hand on a pre) has no opening/closing "
+          "piece and no line of its own: modelled (blocks), compared, excluded from the line/newline oracle. decode_contents() called "
+          "on a pre/textarea itself re-indents its contents (the receiver's own start event is not in the stream): modelled, and "
+          "outside the property's observables (prettify()/decode()). An XML-flavoured BeautifulSoup's declaration line is not "
+          "indented by decode(indent_level=k>0) (modelled as is). For HTMLFormatter/XMLFormatter(indent=...) the unit is read from "
+          "the formatter object (C15 owns which unit results)."),
+    technique="Lean 4 refinement proofs (code-mirror = recursive spec, laws of the spec, generated tables) + differential correspondence + direct Python oracle incl. re-parse and tokenisation",
 )
 
 XML_DECL = '<?xml version="1.0" encoding="utf-8"?>\n'
@@ -81,12 +93,20 @@ def E():
     return _E
 
 
+_ORD = {}
+
+
+def _cps(s: str) -> str:
+    g = _ORD.get
+    return ",".join([g(c) or _ORD.setdefault(c, str(ord(c))) for c in s])
+
+
 def tok(s: str) -> str:
-    return ",".join(str(ord(c)) for c in s) if s else "-"
+    return _cps(s) if s else "-"
 
 
 def show(s: str) -> str:
-    return ",".join(str(ord(c)) for c in s) if s else "e"
+    return _cps(s) if s else "e"
 
 
 def unshow(s: str) -> str:
@@ -94,7 +114,8 @@ def unshow(s: str) -> str:
 
 
 def dropws(s: str) -> str:
-    return "".join(c for c in s if not c.isspace())
+    # str.split() without argument splits at exactly the str.isspace() characters
+    return "".join(s.split())
 
 
 # --------------------------------------------------------------------------------------
@@ -111,6 +132,9 @@ TEXTS = ["", " ", "\n", "  \n ", "a", " a", "a ", " a b ", "a\nb", "\n a \n b \n
 PRE_TEXTS = ["  x  ", "\n  indented\n    more\n", " ", "\n", "a\n\n\nb", "\t", "k", "  ", "\n\n", " \xa0 ", "x\n"]
 ATTRS = ['class="a b"', "id=x", 'title="q &amp; r"', 'data-x=" sp "', "disabled", 'alt="two\nlines"', 'class=" c "',
          "href='u?a=1&amp;b=2'", 'data-q="&quot;"', "rel='x y'"]
+METAS = ['<meta charset="iso-8859-1">', '<meta http-equiv="Content-Type" content="text/html; charset=koi8-r">',
+         '<meta content="text/html; charset=x-sjis" http-equiv="content-type" charset="big5">', '<meta charset="utf-8"/>',
+         '<meta name="x" content="charset=nope">', "<meta charset=''>", '<META HTTP-EQUIV="content-type" CONTENT="text/html;CHARSET=EUC-JP">']
 SPECIALS = ["<!-- c -->", "<!---->", "<!--\n multi\n line \n-->", "<![CDATA[ x ]]>", "<![CDATA[]]>", "<?php x ?>",
             "<!ELEMENT br EMPTY>", "<!--  -->", "<?pi?>"]
 
@@ -133,6 +157,8 @@ def gen_nodes(r, depth, inpre, budget):
             out.append(r.choice(PRE_TEXTS if inpre and r.random() < 0.7 else TEXTS))
         elif x < 0.38:
             out.append(r.choice(SPECIALS))
+        elif x < 0.40:
+            out.append(r.choice(METAS))
         elif x < 0.46:
             out.append("<" + r.choice(VOID) + gen_attrs(r) + r.choice(["", "", "/", " /"]) + ">")
         elif x < 0.50 and not inpre:
@@ -158,7 +184,10 @@ def gen_html(r):
     body = "".join(gen_nodes(r, 0, False, budget))
     x = r.random()
     if x < 0.15:
-        return "<!DOCTYPE html>" + r.choice(["", "\n"]) + "<html><head><title> t </title></head><body>" + body + "</body></html>"
+        return ("<!DOCTYPE html>" + r.choice(["", "\n"]) + "<html><head>" + r.choice(METAS + [""]) + "<title> t </title>"
+                + r.choice(["", ""] + METAS) + "</head><body>" + body + "</body></html>")
+    if x < 0.22:
+        return r.choice(METAS) + body
     if x < 0.25:
         return "<!DOCTYPE html>\n" + body
     return body
@@ -213,6 +242,10 @@ def make_soup(markup, builder):
             return e["BeautifulSoup"](markup, "html.parser")
         if builder == "custom":
             return e["BeautifulSoup"](markup, "html.parser", preserve_whitespace_tags={"p", "b", "td"})
+        if builder == "custom-list":
+            return e["BeautifulSoup"](markup, "html.parser", preserve_whitespace_tags=["p", "b", "td"])
+        if builder == "custom-frozen":
+            return e["BeautifulSoup"](markup, "html.parser", preserve_whitespace_tags=frozenset({"pre", "li"}))
         if builder == "nopre":
             return e["BeautifulSoup"](markup, "html.parser", preserve_whitespace_tags=set())
         if builder == "xmlish":
@@ -234,7 +267,7 @@ EDIT_NAMES = ["tag", "tag", "str", "str", "move", "move", "extract", "unwrap", "
 NEW_NAMES = BLOCK[:4] + INLINE[:4] + PRE + VOID[:2] + ["script"]
 STR_CLASSES = ["NavigableString", "NavigableString", "NavigableString", "Comment", "CData", "Doctype", "ProcessingInstruction",
                "Declaration", "XMLProcessingInstruction", "Script", "TemplateString"]
-API_TEXTS = TEXTS[:24] + ["a < b", "x & y", "<raw>", "  lead", "trail  ", "\n", ""]
+API_TEXTS = TEXTS[:24] + ["a < b", "x & y", "<raw>", "  lead", "trail  ", "\n", "", "\ud800x", " \udfff ", "\u2028\u2029", "\x1c\x1d"]
 
 
 def gen_edits(r, n):
@@ -375,7 +408,15 @@ def build(recipe):
 # --------------------------------------------------------------------------------------
 INDENT_ARGS = [["omit"], ["int", 0], ["int", 1], ["int", 3], ["str", "\t"], ["str", ""], ["none"], ["int", -1], ["str", " \t"],
                ["bool", True], ["float", 2.5], ["str", "--"], ["int", 2], ["str", "\u3000"], ["bool", False], ["int", -7],
-               ["str", ". "], ["list"]]
+               ["str", ". "], ["list"], ["strsub", "\t\t"], ["intsub", 2]]
+
+
+class StrSub(str):
+    pass
+
+
+class IntSub(int):
+    pass
 
 
 def indent_value(a):
@@ -384,6 +425,10 @@ def indent_value(a):
         return None
     if k in ("int", "str", "bool", "float"):
         return a[1]
+    if k == "strsub":
+        return StrSub(a[1])
+    if k == "intsub":
+        return IntSub(a[1])
     if k == "list":
         return [1]
     raise KeyError(k)
@@ -397,9 +442,9 @@ def prop_unit(a):
         return " "
     if k == "none":
         return ""
-    if k in ("int", "bool"):
+    if k in ("int", "bool", "intsub"):
         return " " * max(0, int(a[1]))
-    if k == "str":
+    if k in ("str", "strsub"):
         return a[1]
     return " "
 
@@ -410,9 +455,9 @@ def indent_tok(a):
         return None
     if k == "none":
         return "N"
-    if k in ("int", "bool"):
+    if k in ("int", "bool", "intsub"):
         return f"i{int(a[1])}"
-    if k == "str":
+    if k in ("str", "strsub"):
         return "s" + tok(a[1])
     return "o"
 
@@ -470,8 +515,9 @@ INERT_RE = re.compile(r"^(?:[^<&]|&(?:[a-zA-Z][a-zA-Z0-9]*|#[0-9]+|#[xX][0-9a-fA
 class Pieces:
     """opaque pieces of every node of a document under one resolved formatter"""
 
-    def __init__(self, soup, fmt):
+    def __init__(self, soup, fmt, enc="utf-8"):
         Tag = E()["Tag"]
+        self.enc = enc
         self.open, self.close, self.ready = {}, {}, {}
         # inert: no text piece can change html.parser's tokenisation when whitespace is put next to it (no raw '<', every '&'
         # starts a complete character reference) -- the precondition for comparing re-parses at all (garbage in otherwise)
@@ -479,8 +525,8 @@ class Pieces:
         Pre = E()["el"].PreformattedString
         for x in all_nodes(soup):
             if isinstance(x, Tag):
-                self.open[id(x)] = x._format_tag("utf-8", fmt, opening=True)
-                self.close[id(x)] = x._format_tag("utf-8", fmt, opening=False)
+                self.open[id(x)] = x._format_tag(enc, fmt, opening=True)
+                self.close[id(x)] = x._format_tag(enc, fmt, opening=False)
             else:
                 self.ready[id(x)] = x.output_ready(fmt)
                 if not isinstance(x, Pre) and not INERT_RE.match(self.ready[id(x)]):
@@ -503,10 +549,10 @@ def demanded(node, pc: Pieces, fmt, unit, depth, out, flags):
     if preserving(node):
         if node.hidden:
             flags["hidden_pre"] = True
-            out.append(node.decode(formatter=fmt))
+            out.append(E()["Tag"].decode(node, None, pc.enc, fmt))
         else:
             # character for character: the real plain rendering of the element, on a line of its own
-            out.append(unit * max(depth, 0) + node.decode(formatter=fmt) + "\n")
+            out.append(unit * max(depth, 0) + E()["Tag"].decode(node, None, pc.enc, fmt) + "\n")
         return
     if o:
         out.append(unit * max(depth, 0) + o + "\n")
@@ -592,7 +638,19 @@ def sets_token(sets):
     return ";".join(("/".join(tok(n) for n in key) if key else "e") for key, _ in inv)
 
 
+_PATHS = {}
+
+
 def path_of(x, soup):
+    """child indices from the root; cached per (document, node) -- cleared for every document (trees are not edited while checked)"""
+    key = (id(soup), id(x))
+    v = _PATHS.get(key)
+    if v is None:
+        v = _PATHS[key] = path_of_(x, soup)
+    return v
+
+
+def path_of_(x, soup):
     p = []
     while x is not soup:
         par = x.parent
@@ -640,7 +698,7 @@ def report(ctx: Ctx, what, **kw):
 
 
 CALLS_FULL = [["decode", None], ["prettify"], ["decode", 0], ["decode", 1], ["decode", 2], ["decode_contents", 0],
-              ["decode_contents", 1], ["decode_contents", None], ["prettify_enc"], ["decode", -1], ["decode", True], ["decode", 5], ["decode", False]]
+              ["decode_contents", 1], ["decode_contents", None], ["decode", -1], ["decode", True], ["decode", 5], ["decode", False]]
 
 
 def do_call(recv, call, farg):
@@ -716,12 +774,14 @@ def check_document_(ctx: Ctx, recipe, stream, r, specs_pool, unit_of_spec, reque
     """runs the real code + oracle on one document, appends model requests; returns nothing"""
     e = E()
     Tag, BS = e["Tag"], e["BeautifulSoup"]
+    n_raw = 5
     try:
         soup, applied = build(recipe)
     except RecursionError:
         ctx.count("doc:recursion-skip")
         return
     nodes = all_nodes(soup)
+    _PATHS.clear()
     idmap = {id(x): i for i, x in enumerate(nodes)}
     tags = [x for x in nodes if isinstance(x, Tag)]
     ctx.count(f"doc:{stream}")
@@ -749,6 +809,32 @@ def check_document_(ctx: Ctx, recipe, stream, r, specs_pool, unit_of_spec, reque
             ev_queries.append(f"{path_of(recv, soup)}/N/{1 if recv.hidden else 0}/{1 if co else 0}")
             ev_real.append(real_events(recv, co, idmap))
     pc0 = None
+    # the walk itself: the iterator's elements with their parent pointers -> model's tag-stack mirror (op evs)
+    evsets = {}
+
+    def set_index0(s_):
+        if s_ is None:
+            return "N"
+        key = tuple(sorted(s_))
+        if key not in evsets:
+            evsets[key] = len(evsets)
+        return str(evsets[key])
+    ev_lines = []
+    for recv in recvs:
+        for co in (False, True):
+            it = recv.descendants if co else recv.self_and_descendants
+            toks_ = []
+            for c in it:
+                par = idmap.get(id(c.parent), 999999) if c.parent is not None else 999999
+                if isinstance(c, Tag):
+                    toks_.extend(["T", str(par), str(idmap[id(c)]), "1" if c.can_be_empty_element is True else "0",
+                                  str(len(c.contents)), set_index0(c.preserve_whitespace_tags), tok(c.name)])
+                else:
+                    toks_.extend(["S", str(par)])
+            ev_lines.append(toks_)
+    requests.append({"kind": "evs", "lines": ["c14 evs " + sets_token(evsets) + (" " + " ".join(t) if t else "") for t in ev_lines],
+                     "real": ev_real, "recipe": recipe, "formatter": None, "metas": [(q, ["events-walk"]) for q in ev_queries],
+                     "stream": stream})
 
     for spec in specs:
         farg = make_formatter_arg(spec)
@@ -851,6 +937,7 @@ def check_document_(ctx: Ctx, recipe, stream, r, specs_pool, unit_of_spec, reque
             requests.append({"kind": "spec", "line": "c14 spec " + head, "real": reals, "recipe": recipe, "formatter": spec,
                              "metas": [(path_of(rv, soup), c) for rv, c in metas], "stream": stream})
             ctx.count("fmt:" + spec[0] + (":" + str(spec[1]) if spec[0] in ("name", "base", "sub") else ""))
+            raw_section(ctx, soup, recipe, stream, r, spec, farg, fmt, unit, grecvs, idmap, requests, n_raw)
             ctx.count("unit:" + ("ws" if unit_ws else "non-ws") + ":" + repr(unit))
     if pc0 is not None:
         pc, sets, toks, unit = pc0
@@ -859,11 +946,343 @@ def check_document_(ctx: Ctx, recipe, stream, r, specs_pool, unit_of_spec, reque
                          "metas": [(q, ["events"]) for q in ev_queries], "stream": stream})
 
 
+# --------------------------------------------------------------------------------------
+# the raw layer: pieces computed by the model; encodings, bytes flavour, XML declaration, soup / void receivers
+# --------------------------------------------------------------------------------------
+ENCODINGS = ["latin-1", "ascii", "koi8-r", "utf-16", "cp1252", "UTF-8", "utf8"]
+PY_SPECIFIC = ["idna", "unicode_escape", "punycode", "undefined", "", "string-escape"]
+
+
+def enc_tok(e):
+    return "N" if e is None else tok(e)
+
+
+def prop_xml_decl(enc):
+    """the property's reading of the XML declaration line of an XML-flavoured soup (hard-coded, not read from bs4)"""
+    if enc is None or enc in ("idna", "mbcs", "oem", "palmos", "punycode", "raw_unicode_escape", "undefined", "unicode_escape",
+                              "raw-unicode-escape", "unicode-escape", "string-escape", "string_escape"):
+        return '<?xml version="1.0"?>\n'
+    return '<?xml version="1.0" encoding="%s"?>\n' % enc
+
+
+def attr_string(t, piece, vcp):
+    """the attribute_string part of an opening piece (None when the piece is not assembled as `<prefix:name attrs/>`)"""
+    pfx = (t.prefix + ":") if t.prefix else ""
+    head = "<" + pfx + t.name
+    slash = vcp if (not t.contents and t.can_be_empty_element is True) else ""
+    tail = slash + ">"
+    if not piece.startswith(head) or not piece.endswith(tail) or len(piece) < len(head) + len(tail):
+        return None
+    return piece[len(head):len(piece) - len(tail)]
+
+
+def raw_tokens(ctx, soup, fmt, idmap, sets, encs, vcp):
+    """tokens of the whole document for the raw layer; attribute strings per eventual_encoding obtained from the real
+    _format_tag by cutting off `<prefix:name` and `/>`"""
+    e = E()
+    Tag, BS = e["Tag"], e["BeautifulSoup"]
+    toks = []
+    ok = [True]
+
+    def set_index(s):
+        if s is None:
+            return "N"
+        key = tuple(sorted(s))
+        if key not in sets:
+            sets[key] = len(sets)
+        return str(sets[key])
+
+    def go(x):
+        if isinstance(x, Tag):
+            if x.hidden:
+                attrs = "-"
+            else:
+                by = {}
+                for en in ["utf-8"] + encs:
+                    a = attr_string(x, x._format_tag(en, fmt, opening=True), vcp)
+                    if a is None:
+                        ok[0] = False
+                        a = ""
+                    by[en] = a
+                attrs = tok(by["utf-8"]) + "".join(f";{enc_tok(en)}={tok(by[en])}" for en in encs if by[en] != by["utf-8"])
+                if ";" in attrs:
+                    ctx.count("raw:tag-with-encoding-dependent-attrs")
+            sx = ("1" if x.is_xml else "0") if isinstance(x, BS) else "N"
+            toks.extend(["T", str(idmap[id(x)]), sx, "1" if x.hidden else "0", tok(x.prefix or ""), tok(x.name), attrs,
+                         set_index(x.preserve_whitespace_tags), "1" if x.can_be_empty_element is True else "0", str(len(x.contents))])
+            for ch in x.contents:
+                go(ch)
+        else:
+            ready = x.output_ready(fmt)
+            pre, suf = type(x).PREFIX, type(x).SUFFIX
+            if not (ready.startswith(pre) and ready.endswith(suf) and len(ready) >= len(pre) + len(suf)):
+                ok[0] = False
+                pre = suf = ""
+            toks.extend(["S", tok(pre), tok(suf), tok(ready[len(pre):len(ready) - len(suf)])])
+    go(soup)
+    return toks, ok[0]
+
+
+def do_raw_call(recv, call, k, enc, farg):
+    """call: d/c/e/ec/p; enc 'D' = argument omitted"""
+    with warnings.catch_warnings():
+        warnings.simplefilter("ignore")
+        if call == "p":
+            return recv.prettify(formatter=farg) if enc == "D" else recv.prettify(enc, farg)
+        if call == "d":
+            if isinstance(k, bool) and isinstance(recv, E()["BeautifulSoup"]) and enc != "D" and (enc is None or len(enc) % 2 == 0):
+                # the other deprecated spelling of the same thing
+                return recv.decode(eventual_encoding=enc, formatter=farg, pretty_print=k)
+            return recv.decode(k, formatter=farg) if enc == "D" else recv.decode(k, enc, farg)
+        if call == "c":
+            return recv.decode_contents(k, formatter=farg) if enc == "D" else recv.decode_contents(k, enc, farg)
+        if call == "e":
+            return recv.encode(indent_level=k, formatter=farg) if enc == "D" else recv.encode(enc, k, farg)
+        if call == "ec":
+            return recv.encode_contents(k, formatter=farg) if enc == "D" else recv.encode_contents(k, enc, farg)
+        if call in ("rc1", "rc0"):       # deprecated BS3 spelling; always the default formatter
+            return recv.renderContents(prettyPrint=(call == "rc1"), indentLevel=k) if enc == "D" else \
+                recv.renderContents(enc, call == "rc1", k)
+    raise KeyError(call)
+
+
+def raw_section(ctx, soup, recipe, stream, r, spec, farg, fmt, unit, grecvs, idmap, requests, nrecv):
+    e = E()
+    BS = e["BeautifulSoup"]
+    vcp = fmt.void_element_close_prefix or ""
+    encs = [None] + r.sample(ENCODINGS, 2) + [r.choice(PY_SPECIFIC)]
+    sets = {}
+    toks, ok = raw_tokens(ctx, soup, fmt, idmap, sets, encs, vcp)
+    if not ok:
+        report(ctx, "a piece is not assembled as '<' prefix name attrs '/' '>' / PREFIX body SUFFIX", case={"recipe": recipe, "formatter": spec},
+               stream=stream + "-raw", no_failing_input=True)
+        return
+    unit_ws = unit.strip() == ""
+    # receivers: the soup, empty-element tags, tags with a <meta> below, then a sample
+    def prio(t):
+        if t is soup:
+            return 0
+        if not t.contents and t.can_be_empty_element is True:
+            return 1
+        if t.name == "meta" or t.find("meta") is not None:
+            return 2
+        return 3
+    order = sorted(grecvs, key=lambda t: (prio(t), idmap[id(t)]))
+    chosen = order[:max(2, nrecv // 2)] + r.sample(order[max(2, nrecv // 2):], min(len(order) - min(len(order), max(2, nrecv // 2)), nrecv - nrecv // 2))
+    pcs = {}
+
+    def pieces(en):
+        if en not in pcs:
+            pcs[en] = Pieces(soup, fmt, en)
+        return pcs[en]
+    queries, reals, metas = [], [], []
+    for recv in chosen:
+        is_soup = isinstance(recv, BS)
+        kinds = [("p", 0, "D"), ("p", 0, r.choice(encs[1:3])), ("d", None, "D"), ("d", r.choice([0, 1, 2, True, False]), r.choice(encs)),
+                 ("c", r.choice([None, 0, 1]), r.choice(["D"] + encs)), ("e", r.choice([None, 0, 1]), r.choice(["D"] + encs[1:3])),
+                 ("ec", r.choice([None, 0, 2]), r.choice(["D"] + encs[1:3])), ("d", r.choice([None, 0]), None)]
+        if spec == ["name", "minimal"]:
+            kinds.append((r.choice(["rc1", "rc0"]), r.choice([0, 1, 2]), r.choice(["D"] + encs[1:3])))
+        plain_by = {}
+        for call, k, en in kinds:
+            try:
+                real = do_raw_call(recv, call, k, en, farg)
+            except (UnicodeError, LookupError) as ex:
+                ctx.count("raw:codec-error:" + type(ex).__name__)
+                continue
+            eff_enc = "utf-8" if en == "D" else en       # the property: omitted encoding arguments mean UTF-8 for the text
+            if call == "p" and en == "D":
+                eff_enc = "utf-8"
+            lk = k
+            if is_soup and isinstance(k, bool):
+                lk = 0 if k else None                     # documented pre-4.13 meaning kept by BeautifulSoup.decode
+            queries.append(f"{path_of(recv, soup)}/{call}/{'T' if k is True else 'F' if k is False else lvl_tok(k)}/"
+                           f"{'D' if en == 'D' else enc_tok(en)}")
+            reals.append(real)
+            metas.append((path_of(recv, soup), [call, k if not isinstance(k, bool) else str(k), en]))
+            ctx.count(f"raw:call:{call}:{'bytes' if isinstance(real, bytes) else 'str'}")
+            ctx.count("raw:recv:" + ("xml-soup" if is_soup and recv.is_xml else "soup" if is_soup else
+                                     "void" if (not recv.contents and recv.can_be_empty_element is True) else "tag"))
+            # ---------------- direct oracle ----------------
+            co = call in ("c", "ec", "rc1", "rc0")
+            if call == "rc0":
+                lk = None
+            decl = prop_xml_decl(eff_enc) if (is_soup and recv.is_xml) else ""
+            case = {"recipe": recipe, "receiver": path_of(recv, soup), "formatter": spec, "rawcall": [call, str(k) if isinstance(k, bool) else k, en]}
+            pc = pieces(eff_enc)
+            level = 0 if call == "p" else lk
+            if isinstance(level, bool):
+                level = 0                                 # Tag.decode: True means level 0, False is the int 0
+            if level is None:
+                want = None
+            else:
+                body, flags = demanded_text(recv, pc, fmt, unit, int(level), co)
+                want = None if flags.get("hidden_pre") else decl + body
+            text = real
+            if isinstance(real, bytes):
+                if want is not None:
+                    want_b = want.encode(eff_enc, "xmlcharrefreplace")
+                    if real != want_b:
+                        report(ctx, "bytes flavour: output is not the encoded 'one item per line at unit x depth' text", case=case,
+                               expected=repr(want_b), observed=repr(real), stream=stream + "-raw")
+                try:
+                    text = real.decode(eff_enc)
+                except UnicodeError:
+                    text = None
+            elif want is not None and real != want:
+                report(ctx, "pretty output (encoding / receiver grid) is not 'one item per line at unit x depth, whitespace-preserving "
+                       "elements verbatim" + (", XML declaration first'" if decl else "'"), case=case, expected=want, observed=real,
+                       stream=stream + "-raw")
+            # non-whitespace equality is a statement about the text handed to the codec (a whitespace character the target
+            # encoding lacks becomes a character reference in the bytes): str results only, bytes are tied to text above
+            if text is not None and call in ("p", "d") and not isinstance(real, bytes):
+                if level is None:
+                    plain_by[eff_enc] = text
+                elif unit_ws:
+                    pl = plain_by.get(eff_enc)
+                    if pl is None:
+                        # the plain rendering for the same eventual encoding
+                        pl = decl + E()["Tag"].decode(recv, None, eff_enc, fmt)
+                    if dropws(text) != dropws(pl):
+                        report(ctx, "pretty and plain output for the same encoding differ in non-whitespace characters", case=case,
+                               expected=dropws(pl), observed=dropws(text), stream=stream + "-raw")
+                    ctx.count("raw:oracle:nonws")
+                if text != "" and level is not None and want is not None and not text.endswith("\n"):
+                    report(ctx, "pretty output does not end with a newline", case=case, observed=text[-20:], stream=stream + "-raw")
+            ctx.case(("R", hash((real, tuple(spec[:2]), call, str(k), str(en)))) if len(real) > 0 else None)
+    # the token view: the model's cuts against the real tokenizer's on the real plain / pretty text
+    if unit_ws and pieces("utf-8").inert:
+        for recv in chosen:
+            if isinstance(recv, BS) or not token_safe(recv):
+                ctx.count("raw:tokens:skipped")
+                continue
+            try:
+                plain_t = E()["Tag"].decode(recv, None, "utf-8", fmt)
+                pretty_t = E()["Tag"].decode(recv, 0, "utf-8", fmt)
+                rp, rq = canon_tokens(real_tokens(plain_t)), canon_tokens(real_tokens(pretty_t))
+            except Exception as ex:  # noqa: BLE001  (html.parser giving up on exotic input is not bs4's business here)
+                ctx.count("raw:tokens:tokenizer-error:" + type(ex).__name__)
+                continue
+            if rp != rq:
+                report(ctx, "html.parser cuts the pretty and the plain output into different token sequences (whitespace in "
+                       "character data disregarded)", case={"recipe": recipe, "receiver": path_of(recv, soup), "formatter": spec,
+                                                             "call": ["prettify"]}, expected=rp, observed=rq, stream=stream + "-tokens")
+            for call_, real_ in (("tp", rp), ("tq", rq)):
+                queries.append(f"{path_of(recv, soup)}/{call_}/0/{tok('utf-8')}")
+                reals.append(("TOK", real_))
+                metas.append((path_of(recv, soup), [call_, 0, "utf-8"]))
+            ctx.count("raw:tokens:compared")
+            ctx.case(("K", hash(rq)))
+    if not queries:
+        return
+    head = f"{tok(unit)} {tok(vcp)} {sets_token(sets)} {len(queries)} " + " ".join(queries) + " " + " ".join(toks)
+    for mode in ("impl", "spec"):
+        requests.append({"kind": "raw-" + mode, "line": f"c14 raw {mode} " + head, "real": reals, "recipe": recipe, "formatter": spec,
+                         "metas": metas, "stream": stream})
+
+
+# --------------------------------------------------------------------------------------
+# the real tokenizer's cuts (html.parser), canonicalised like the model's `canon`
+# --------------------------------------------------------------------------------------
+RAWTEXT = {"script", "style", "title", "textarea", "xmp", "iframe", "noembed", "noframes", "plaintext", "noscript"}
+
+
+def real_tokens(text):
+    """[(kind, raw slice)] of `text` as html.parser cuts it: a slice starts where a handler is called"""
+    from html.parser import HTMLParser
+    marks = []
+    starts = [0]
+    for line in text.split("\n")[:-1]:
+        starts.append(starts[-1] + len(line) + 1)
+
+    class P(HTMLParser):
+        def _m(self, kind):
+            ln, col = self.getpos()
+            marks.append((starts[ln - 1] + col, kind))
+
+        def handle_starttag(self, tag, attrs):
+            self._m("M")
+
+        def handle_startendtag(self, tag, attrs):
+            self._m("M")
+
+        def handle_endtag(self, tag):
+            self._m("M")
+
+        def handle_data(self, data):
+            self._m("D")
+
+        def handle_entityref(self, name):
+            self._m("D")
+
+        def handle_charref(self, name):
+            self._m("D")
+
+        def handle_comment(self, data):
+            self._m("M")
+
+        def handle_decl(self, decl):
+            self._m("M")
+
+        def handle_pi(self, data):
+            self._m("M")
+
+        def unknown_decl(self, data):
+            self._m("M")
+    ps = P(convert_charrefs=False)
+    ps.feed(text)
+    ps.close()
+    out = []
+    for (off, kind), nxt in zip(marks, [m[0] for m in marks[1:]] + [len(text)]):
+        out.append((kind, text[off:nxt]))
+    return out
+
+
+def canon_tokens(toks):
+    out, acc = [], ""
+    for kind, raw in toks:
+        if kind == "D":
+            acc += dropws(raw)
+        else:
+            if acc:
+                out.append("D" + show(acc))
+                acc = ""
+            out.append("M" + show(raw))
+    if acc:
+        out.append("D" + show(acc))
+    return ";".join(out) if out else "-"
+
+
+def token_safe(recv):
+    """the receiver renders to output whose cuts are those the model assumes: it is visible, nothing but text sits inside
+    raw-text elements, special strings do not contain their own delimiters, names are plain"""
+    e = E()
+    Tag, Pre = e["Tag"], e["el"].PreformattedString
+    if recv.hidden:
+        return False
+    for x in [recv] + list(recv.descendants):
+        if isinstance(x, Tag):
+            if not re.fullmatch(r"[a-z][a-z0-9]*", x.name or "") or (x.prefix and not re.fullmatch(r"[a-z]+", x.prefix)):
+                return False
+            if x.name in RAWTEXT and any(isinstance(c, (Tag, Pre)) or "<" in str.__str__(c) for c in x.descendants):
+                return False
+            for k, v in x.attrs.items():
+                if not re.fullmatch(r"[a-z][a-z0-9-]*", str(k)):
+                    return False
+        elif isinstance(x, Pre):
+            body = str.__str__(x)
+            if any(ch in body for ch in "<>") or "--" in body or "]]" in body or "?" in body or body.strip() == "" or body != body.strip():
+                return False
+            if type(x).__name__ not in ("Comment", "CData", "Doctype", "ProcessingInstruction", "Declaration", "XMLProcessingInstruction"):
+                return False
+    return True
+
+
 def gen_recipe(r, stream):
     if stream == "html":
-        return {"kind": "html", "markup": gen_html(r), "builder": r.choice(["default"] * 6 + ["custom", "nopre"]), "edits": []}
+        return {"kind": "html", "markup": gen_html(r), "builder": r.choice(["default"] * 6 + ["custom", "nopre", "custom-list", "custom-frozen"]), "edits": []}
     if stream == "edited":
-        b = r.choice(["default"] * 5 + ["custom", "nopre", "xmlish"])
+        b = r.choice(["default"] * 5 + ["custom", "nopre", "xmlish", "custom-list"])
         m = gen_xml(r) if b == "xmlish" else gen_html(r)
         return {"kind": "edited", "markup": m, "builder": b, "edits": gen_edits(r, r.randint(1, 8))}
     if stream == "xml":
@@ -875,7 +1294,13 @@ def gen_recipe(r, stream):
     raise KeyError(stream)
 
 
+DEEP = "".join(f"<div class=d{i}>" for i in range(22)) + " deep <pre> p <b> q </b>\n</pre><br> tail " + "</div>" * 22
 FIXED = [
+    {"kind": "html", "markup": DEEP, "builder": "default", "edits": []},
+    {"kind": "html", "markup": '<html><head><meta charset="iso-8859-1"><meta http-equiv="Content-Type" content="text/html; charset=koi8-r"></head>'
+                               "<body><br><pre> a </pre></body></html>", "builder": "default", "edits": []},
+    {"kind": "xml", "markup": '<root><meta charset="big5"/><a/> t </root>', "builder": "xmlish", "edits": []},
+    {"kind": "html", "markup": "<br><img alt=' x '><input disabled><hr/>", "builder": "default", "edits": [["clear", 2]]},
     # the five literal snippets style + corner cases named in the property
     {"kind": "html", "markup": "<div><p>a <b>x</b></p><pre> x <b> y </b>\n</pre><br/>  </div>", "builder": "default", "edits": []},
     {"kind": "html", "markup": "<pre><pre> in </pre> out </pre>", "builder": "default", "edits": []},
@@ -956,6 +1381,15 @@ def run(ctx: Ctx):
             small_real.append("1" if t._should_pretty_print() else "0")
             small_case.append({"op": "spp", "pwt": None if pwt is None else sorted(pwt), "name": nm})
             ctx.case(("P", st, nm))
+    for lvl in (None, 0, 1, -1):
+        for pwt in (None, {"pre"}):
+            for nm in ("pre", "x"):
+                t = Tag(name=nm, preserve_whitespace_tags=pwt)
+                st = "N" if pwt is None else "/".join(tok(n) for n in sorted(pwt))
+                small_lines.append(f"c14 sppat {lvl_tok(lvl)} {st} {tok(nm)}")
+                small_real.append("1" if t._should_pretty_print(lvl) else "0")
+                small_case.append({"op": "sppat", "level": lvl, "pwt": None if pwt is None else sorted(pwt), "name": nm})
+                ctx.case(("PA", lvl, st, nm))
     rep = drv.ask(small_lines)
     for l, a, b, c in zip(small_lines, small_real, rep, small_case):
         if c["op"] == "indent":
@@ -975,7 +1409,7 @@ def run(ctx: Ctx):
     # ---- documents ----
     specs_pool = formatter_specs(names)
     requests = []
-    plan = [("html", ctx.n(400, 2400)), ("edited", ctx.n(500, 3000)), ("xml", ctx.n(150, 900)), ("malformed", ctx.n(150, 900))]
+    plan = [("html", ctx.n(300, 2000)), ("edited", ctx.n(380, 2400)), ("xml", ctx.n(110, 700)), ("malformed", ctx.n(110, 700))]
     max_recv = ctx.n(14, 30)
     n_specs = ctx.n(4, 7)
     for i, recipe in enumerate(FIXED):
@@ -993,17 +1427,55 @@ def run(ctx: Ctx):
             recipe = gen_recipe(r, stream)
             check_document(ctx, recipe, stream, r, specs_pool, unit_of_spec, requests, max_recv, n_specs)
     # ---- the Lean model ----
-    lines = [q["line"] for q in requests]
-    replies = drv.ask(lines)
+    lines = []
+    for q in requests:
+        if q["kind"] == "evs":
+            lines.extend(q["lines"])
+        else:
+            lines.append(q["line"])
+    all_replies = drv.ask(lines)
+    replies, pos = [], 0
+    for q in requests:
+        if q["kind"] == "evs":
+            replies.append(all_replies[pos:pos + len(q["lines"])])
+            pos += len(q["lines"])
+        else:
+            replies.append(all_replies[pos])
+            pos += 1
+    shown = {}
     for q, rp in zip(requests, replies):
-        got = rp.split(" | ") if rp != "" else [""]
-        want = q["real"] if q["kind"] == "ev" else [show(x) for x in q["real"]]
+        if q["kind"] == "evs":
+            got = rp
+        else:
+            got = rp.split(" | ") if rp != "" else [""]
+        if q["kind"].startswith("raw-"):
+            # a bytes result comes back as b:<enc>:<text>; the codec step (not modelled) is applied here
+            want = []
+            for x, g in zip(q["real"], got):
+                if isinstance(x, tuple):
+                    want.append(x[1])
+                elif isinstance(x, bytes):
+                    m = g.split(":")
+                    try:
+                        ok = len(m) == 3 and m[0] == "b" and unshow(m[2]).encode(unshow(m[1]), "xmlcharrefreplace") == x
+                    except (UnicodeError, LookupError, ValueError):
+                        ok = False
+                    want.append(g if ok else "bytes:" + repr(x)[:300])
+                else:
+                    want.append(show(x))
+        else:
+            if q["kind"] in ("ev", "evs"):
+                want = q["real"]
+            else:
+                want = shown.get(id(q["real"]))
+                if want is None:
+                    want = shown[id(q["real"])] = [show(x) for x in q["real"]]
         ctx.count(f"model:{q['kind']}:queries", len(want))
         if got == want:
             continue
         if len(got) != len(want):
             ctx.corr_disagreements += 1
-            report(ctx, "model reply malformed", case={"recipe": q["recipe"], "formatter": q["formatter"], "reply": rp[:200]},
+            report(ctx, "model reply malformed", case={"recipe": q["recipe"], "formatter": q["formatter"], "reply": str(rp)[:200]},
                           stream=q["stream"] + "-model", no_failing_input=True)
             continue
         for (path, call), a, b in zip(q["metas"], want, got):
@@ -1013,7 +1485,8 @@ def run(ctx: Ctx):
                 # the oracle above already judged this output; a disagreement with the model alone is reported without a failing input
                 already = any(v["case"].get("recipe") == q["recipe"] and not v.get("no_failing_input_found") for v in ctx.violations)
                 report(ctx, f"model ({q['kind']}) and implementation disagree", case=case,
-                              observed=a if q["kind"] == "ev" else unshow(a), model=b if q["kind"] == "ev" else unshow(b),
+                              observed=a if (q["kind"] in ("ev", "evs") or ":" in a) else unshow(a),
+                              model=b if (q["kind"] in ("ev", "evs") or ":" in b or "-" in b) else unshow(b),
                               stream=q["stream"] + "-model", no_failing_input=not already)
                 break
     ctx.count("model:requests", len(lines))
@@ -1038,6 +1511,43 @@ def replay(path):
         return 1
     soup, applied = build(c["recipe"])
     print("document :", repr(soup.decode())[:400])
+    if "receiver" in c and "rawcall" in c:
+        e = E()
+        recv = soup
+        if c["receiver"] != "r":
+            for i in c["receiver"].split("."):
+                recv = recv.contents[int(i)]
+        call, k, en = c["rawcall"]
+        k = True if k == "True" else False if k == "False" else k
+        spec = c["formatter"]
+        farg = make_formatter_arg(spec)
+        fmt = farg if isinstance(farg, e["Formatter"]) else recv.formatter_for_name(farg)
+        real = do_raw_call(recv, call, k, en, farg)
+        eff = "utf-8" if en == "D" else en
+        is_soup = isinstance(recv, e["BeautifulSoup"])
+        lk = (0 if k else None) if (is_soup and isinstance(k, bool)) else k
+        level = 0 if call == "p" else (None if call == "rc0" else lk)
+        if isinstance(level, bool):
+            level = 0
+        print("receiver :", repr(str(recv))[:200])
+        print("formatter:", spec, " call:", call, " level:", k, " encoding:", en)
+        print("observed :", repr(real))
+        if v.get("expected") is not None:
+            print("expected :", repr(v["expected"]))
+        if v.get("model_reply") is not None:
+            print("model    :", repr(v["model_reply"]))
+        bad = False
+        if level is not None:
+            decl = prop_xml_decl(eff) if (is_soup and recv.is_xml) else ""
+            body, flags = demanded_text(recv, Pieces(soup, fmt, eff), fmt, fmt.indent, int(level), call in ("c", "ec", "rc1", "rc0"))
+            if not flags.get("hidden_pre"):
+                want = decl + body
+                if isinstance(real, bytes):
+                    want = want.encode(eff, "xmlcharrefreplace")
+                print("demanded :", repr(want))
+                bad = real != want
+        print("property " + ("VIOLATED" if bad else "holds on this input (for the formatter's own unit)"))
+        return 1 if bad else 0
     if "receiver" not in c or "call" not in c or c["call"] == ["events"]:
         print(json.dumps({k: c[k] for k in c if k != "recipe"}, indent=1)[:2000])
         return 1
